@@ -57,6 +57,7 @@ def floors(tier):
             "no_xfail:on": 8, "no_xfail:off": 8, "black:on": 8, "black:off": 5,
             "algo:DYNAMOSA": 15, "algo:MIO": 1, "algo:WHOLE_SUITE": 1, "algo:RANDOM": 1,
             "test:passed": 100 * k, "test:xfailed": 20 * k,
+            "fault:filter_execution_times_out": 2,
         },
     }
 
@@ -215,6 +216,12 @@ def check_file(ctx, r):
     had_timeouts = genfiles.unverified_assertions(r["res"])
     if had_timeouts:
         ctx.cls("run:assertion-filter-execution-timed-out")
+    if c.get("fault"):
+        applied = [n for e in r["res"].get("events", []) if e.get("ev") == "seeded-breaks" for n in e.get("names", [])]
+        if c["fault"] not in applied:
+            ctx.inconclusive_because(f"{r['tag']}: injected fault {c['fault']} was not applied")
+            return
+        ctx.cls(f"fault:{c['fault']}")
     classes = _file_classes(fi, r["f1"], c)
     ctx.ok(0, distinct=core.stable_hash(r["f1"]))
     for name in classes:
@@ -227,7 +234,7 @@ def check_file(ctx, r):
     def report(key, desc, extra):
         if nondet:
             ctx.anomaly(f"random-using-sut:{key}")
-        elif had_timeouts and key.startswith("fails:AssertionError"):
+        elif had_timeouts and not c.get("fault") and key.startswith("fails:AssertionError"):
             # a timed-out filtering execution keeps every unverified assertion (the filter fails open); timeouts come from
             # machine load, so the value mismatch is not attributed to the deterministic pipeline
             ctx.anomaly(f"after-execution-timeouts:{key}")
